@@ -226,6 +226,33 @@ func runScenario(sc scenario) {
 					}
 				}
 			}
+			if cyc < 2 {
+				// the connection opened after the notice is healthy: nothing the client still has to do
+				// about the announced one (it drains and closes it about half a second later) may
+				// close this one or make later calls leave it
+				w.mu.Lock()
+				fresh := w.connOf[fmt.Sprintf("c11-%d-c%d-win2", sc.ID, cyc)]
+				w.mu.Unlock()
+				time.Sleep(800 * time.Millisecond)
+				if fresh != nil && fresh.Closed.Load() != 0 {
+					run.Violation("healthy-connection-treated-as-closed", "notice-window", fmt.Sprintf("the connection the client opened after the reconnect notice was closed by the client itself within 0.8 s, the server had not touched it; scenario %+v", sc), wit(map[string]interface{}{"cycle": cyc}))
+					return
+				}
+				tok := fmt.Sprintf("c11-%d-c%d-win-later", sc.ID, cyc)
+				d, c, got := call(cl, tok)
+				if c != "ok" || got != tok {
+					run.Violation("call-after-close-fails", "notice-window", fmt.Sprintf("call %q issued 0.8 s after the calls that followed the reconnect notice ended with %s after %v; scenario %+v", tok, c, d, sc), wit(map[string]interface{}{"cycle": cyc}))
+					return
+				}
+				w.mu.Lock()
+				used := w.connOf[tok]
+				w.mu.Unlock()
+				if fresh != nil && used != fresh {
+					run.Violation("healthy-connection-treated-as-closed", "notice-window", fmt.Sprintf("a call issued 0.8 s later did not use the healthy connection opened after the reconnect notice but a further new one; scenario %+v", sc), wit(map[string]interface{}{"cycle": cyc}))
+					return
+				}
+				run.Eval(1)
+			}
 			w.srv.CloseAllConnsExceptNewest()
 			run.Eval(3)
 			continue
